@@ -88,10 +88,13 @@ def get_trace_inputs(cmd, entry, timeout, prop=None):
             infn = (' function %s ' % entry) in ln + ' '
             continue
         if infn:
-            m = re.match(r'^\s+([A-Za-z_][A-Za-z0-9_]*(?:\[\d+l?\])*)=(-?\d+)(?:ul|l|u)?\b', ln)
+            m = re.match(r'^\s+([A-Za-z_][A-Za-z0-9_]*(?:\[\d+l?\])*)=(-?\d+)(?:ul|l|u)?\b(?![.0-9ef])', ln)
             if m:
                 nm = re.sub(r'\[(\d+)l\]', r'[\1]', m.group(1))
                 vals[nm] = int(m.group(2)) & (2**64 - 1)
+            else:
+                m = re.match(r'^\s+([A-Za-z_][A-Za-z0-9_]*)=[-+0-9.eEinfNa]+f? \(([01 ]+)\)', ln)      # floating-point value: keep its bit pattern
+                if m: vals[m.group(1) + '_bits'] = int(m.group(2).replace(' ', ''), 2)
     mm = re.search(r'Violated property:\n(.*)\n(.*)\n', r.stdout)
     viol = (mm.group(1).strip() + ' ' + mm.group(2).strip()) if mm else ''
     return vals, viol
